@@ -9,11 +9,11 @@ namespace Phil
 
 /-! ### the declared domain of a type -/
 
-/-- `value_min`/`value_max` as the code guarantees them: the comparisons that would raise are false.
-    (`pyLt` is false on `nan`, so `nan` satisfies every pair of bounds.) -/
+/-- `value_min`/`value_max` as the code guarantees them: `value_min <= v` and `v <= value_max` hold
+    (Python comparisons).  (`pyLe` is false on `nan`, so `nan` satisfies no declared bound.) -/
 def boundsOk (lo hi : Option PNum) (v : PNum) : Bool :=
-  (match lo with | some m => pyLt v m == false | Option.none => true) &&
-  (match hi with | some M => pyLt M v == false | Option.none => true)
+  (match lo with | some m => pyLe m v | Option.none => true) &&
+  (match hi with | some M => pyLe v M | Option.none => true)
 
 /-- `size_min`/`size_max` -/
 def sizeOk (smin smax : Option Int) (n : Nat) : Bool :=
@@ -472,18 +472,53 @@ theorem sizeOk_iff (smin smax : Option Int) (n : Nat) :
   cases smin <;> cases smax <;> simp [sizeOk]
 
 theorem boundsOk_iff (lo hi : Option PNum) (v : PNum) :
-    boundsOk lo hi v = true ↔ (∀ m, lo = some m → pyLt v m = false) ∧ (∀ M, hi = some M → pyLt M v = false) := by
+    boundsOk lo hi v = true ↔ (∀ m, lo = some m → pyLe m v = true) ∧ (∀ M, hi = some M → pyLe v M = true) := by
   cases lo <;> cases hi <;> simp [boundsOk]
 
-/-! ### nan passes every bound -/
+/-! ### nan satisfies no declared bound -/
 
 theorem pyLt_nan_left (m : PNum) : pyLt .nan m = false := by
   cases m <;> rfl
 theorem pyLt_nan_right (m : PNum) : pyLt m .nan = false := by
   cases m <;> rfl
 
-theorem boundsOk_nan (lo hi : Option PNum) : boundsOk lo hi .nan = true := by
-  cases lo <;> cases hi <;> simp [boundsOk, pyLt_nan_left, pyLt_nan_right]
+theorem pyLe_nan_left (m : PNum) : pyLe .nan m = false := by
+  cases m <;> rfl
+theorem pyLe_nan_right (m : PNum) : pyLe m .nan = false := by
+  cases m <;> rfl
+
+/-- `a <= b` is `not (b < a)` away from nan, and false on nan -/
+theorem pyLe_iff (a b : PNum) :
+    pyLe a b = true ↔ a ≠ .nan ∧ b ≠ .nan ∧ pyLt b a = false := by
+  cases a <;> cases b <;> simp [pyLe]
+
+theorem pyLe_eq_false_iff (a b : PNum) :
+    pyLe a b = false ↔ a = .nan ∨ b = .nan ∨ pyLt b a = true := by
+  cases a <;> cases b <;> simp [pyLe]
+
+/-- nan is within the bounds only when none is declared -/
+theorem boundsOk_nan_iff (lo hi : Option PNum) :
+    boundsOk lo hi .nan = true ↔ lo = Option.none ∧ hi = Option.none := by
+  cases lo <;> cases hi <;> simp [boundsOk, pyLe_nan_left, pyLe_nan_right]
+
+/-- a value within a declared bound is not nan -/
+theorem boundsOk_ne_nan (lo hi : Option PNum) (v : PNum) (h : boundsOk lo hi v = true)
+    (hd : lo.isSome = true ∨ hi.isSome = true) : v ≠ .nan := by
+  intro hv
+  subst hv
+  obtain ⟨h1, h2⟩ := (boundsOk_nan_iff lo hi).mp h
+  subst h1 h2
+  simp at hd
+
+/-- `_check_value` on nan: refused by the first declared bound -/
+theorem checkValue_nan (lo hi : Option PNum) (ws : List Word) (wl : Bool) :
+    checkValue lo hi ws wl .nan =
+      (match lo, hi with
+       | some _, _ => .error (.runtime "value_min" (if wl then firstLine ws else Option.none))
+       | Option.none, some _ => .error (.runtime "value_max" (if wl then firstLine ws else Option.none))
+       | Option.none, Option.none => .ok ()) := by
+  unfold checkValue
+  cases lo <;> cases hi <;> simp [pyLe_nan_left, pyLe_nan_right]
 
 /-- the text-level special spellings of `number_from_value_string` -/
 def isSpecialNumText (s : Str) : Bool :=
@@ -499,24 +534,50 @@ theorem numberFromValueString_plain (env : EvalEnv) (ws : List Word) (s : Str) (
   unfold numberFromValueString
   simp only [h1, h2, h3, h4, he, Bool.or_self, Bool.false_eq_true, ↓reduceIte]
 
-/-- the float type with any bounds, any `allow_none`, any `optional`, accepts a value string that
-    evaluates to `nan` -/
-theorem nan_passes_bounds_gen (env : EvalEnv) (a : NumArgs) (opt : AttrVal) (ws : List Word) (s : Str)
+/-- the float type with a declared bound (any `allow_none`, any `optional`) refuses a value string
+    that evaluates to `nan`: "value_min" when `value_min` is declared, else "value_max" -/
+theorem nan_refused_by_bounds_gen (env : EvalEnv) (a : NumArgs) (opt : AttrVal) (ws : List Word) (s : Str)
     (hw : strFromWords ws = .str s) (hs : isSpecialNumText s = false)
-    (he : env s = some (.num .nan)) :
+    (he : env s = some (.num .nan))
+    (hb : a.valueMin.isSome = true ∨ a.valueMax.isSome = true) :
+    fromWords (.float a) env opt ws =
+      .error (.runtime (if a.valueMin.isSome then "value_min" else "value_max") (firstLine ws)) := by
+  rw [fromWords_float_eq]
+  unfold scalarTail
+  simp only [hw, numberFromValueString_plain env ws s .nan hs he]
+  unfold convertChecked
+  simp only [Bool.false_eq_true, ↓reduceIte, floatFromNumber]
+  rw [checkValue_nan]
+  cases h1 : a.valueMin <;> cases h2 : a.valueMax <;> simp_all <;> rfl
+
+/-- without any bound, `nan` is still accepted -/
+theorem nan_accepted_without_bounds (env : EvalEnv) (a : NumArgs) (opt : AttrVal) (ws : List Word) (s : Str)
+    (hw : strFromWords ws = .str s) (hs : isSpecialNumText s = false)
+    (he : env s = some (.num .nan))
+    (h1 : a.valueMin = Option.none) (h2 : a.valueMax = Option.none) :
     fromWords (.float a) env opt ws = .ok (.num .nan) := by
   rw [fromWords_float_eq]
   unfold scalarTail
   simp only [hw, numberFromValueString_plain env ws s .nan hs he]
   unfold convertChecked
   simp only [Bool.false_eq_true, ↓reduceIte, floatFromNumber]
-  rw [checkValue_of_boundsOk _ _ _ _ _ (boundsOk_nan _ _)]
+  rw [checkValue_nan, h1, h2]
   rfl
 
-theorem nan_passes_bounds (env : EvalEnv) (he : env "nan".toList = some (.num .nan)) :
+theorem nan_refused_by_bounds (env : EvalEnv) (he : env "nan".toList = some (.num .nan)) :
     fromWords (.float { valueMin := some (.int 0) }) env .none [⟨"nan".toList, none, some 1⟩]
-      = .ok (.num .nan) :=
-  nan_passes_bounds_gen env _ _ _ "nan".toList (by rfl) (by rfl) he
+      = .error (.runtime "value_min" (some 1)) :=
+  nan_refused_by_bounds_gen env _ _ _ "nan".toList (by rfl) (by rfl) he (.inl rfl)
+
+/-- `InDomain` of a float type contains `nan` only when no bound is declared -/
+theorem inDomain_float_nan (a : NumArgs) :
+    InDomain (.float a) (.num .nan) = true ↔ a.valueMin = Option.none ∧ a.valueMax = Option.none := by
+  simp [InDomain, isFloatIn, boundsOk_nan_iff]
+
+/-- … and likewise for the elements of a `floats` list -/
+theorem elemOk_float_nan (a : ListArgs) :
+    elemOk false a (.num .nan) = true ↔ a.valueMin = Option.none ∧ a.valueMax = Option.none := by
+  simp [elemOk, isFloatIn, boundsOk_nan_iff]
 
 /-- `int` accepts a float (or any number) whose value is integral -/
 theorem int_accepts_integral_gen (env : EvalEnv) (a : NumArgs) (opt : AttrVal) (ws : List Word)
